@@ -10,6 +10,10 @@ Decided (necessary structural conditions on the read / write paths of tensor.py 
           classes, and an unrecognised key is rejected rather than ignored
   SORTER  positions returned by np.searchsorted(.., sorter=s) are mapped back through s before they index the unsorted array
           (no such call on today's tree; positive fixture checked on every run)
+  SLICE   the positions a slice key selects are obtained by normalising it against the mode's extent (range(n)[s],
+          np.arange(n)[s], s.indices(n)): raw .start / .stop / .step fields (or `field or default`) never flow into position
+          arithmetic - range / arange bounds, comparisons or arithmetic with subscripts - where negative and None bounds and the
+          step would be lost; using .stop only to size growth (None test, max with the extent) is fine
   GROW    growth pads with zeros: dense growth allocates np.zeros of the enlarged shape and copies the old block;
           every completing path of the sparse writes passes through the extent update (must-pass-through)
 Cross-reference: that keys and right-hand sides are not modified is decided by C05 (AL-mut / AL-cap) and that a
@@ -118,6 +122,98 @@ def grow_sparse(prog: Program, res: Result) -> None:
             res.undecided("GROW", short, desc, prog.loc(fi), "no completing path")
 
 
+def slice_norm(prog: Program, res: Result, tree=None) -> int:
+    n_sites = 0
+    if tree is None:
+        items = [(fi.short, fi.node, fi) for q, fi in sorted(prog.functions.items())
+                 if not fi.parent and fi.module in ("pyttb.pyttb_utils", "pyttb.sptensor", "pyttb.tensor")]
+    else:
+        items = [("fixture", x, None) for x in ast.walk(tree) if isinstance(x, ast.FunctionDef)]
+    for short, fn, fi in items:
+        raw = [a for a in ast.walk(fn) if isinstance(a, ast.Attribute) and a.attr in ("start", "stop", "step") and isinstance(a.ctx, ast.Load)
+               and not (isinstance(a.value, ast.Name) and a.value.id in ("self", "np"))]
+        if not raw:
+            continue
+        parents = {}
+        for x in ast.walk(fn):
+            for c in ast.iter_child_nodes(x):
+                parents[id(c)] = x
+        # names defined from a raw field (directly or through `field or default` / arithmetic)
+        carriers: Dict[str, ast.AST] = {}
+        changed = True
+        while changed:
+            changed = False
+            for a in ast.walk(fn):
+                if isinstance(a, ast.Assign) and len(a.targets) == 1 and isinstance(a.targets[0], ast.Name) and a.targets[0].id not in carriers:
+                    v = a.value
+                    if isinstance(v, ast.Call):
+                        continue         # max(shape, key.stop), len(...), ... produce extents, not raw bounds
+                    uses = [x for x in ast.walk(v) if (x in raw) or (isinstance(x, ast.Name) and x.id in carriers)]
+                    if uses:
+                        carriers[a.targets[0].id] = a
+                        changed = True
+
+        def position_use(node) -> Optional[ast.AST]:
+            """the enclosing construct when `node` (a raw field or a carrier name) is used as a position"""
+            cur = node
+            while id(cur) in parents:
+                par = parents[id(cur)]
+                if isinstance(par, ast.Call):
+                    nm = (dotted(par.func) or "").split(".")[-1]
+                    if nm in ("arange", "range", "linspace"):
+                        return par
+                    if nm in ("max", "min", "append", "len", "isinstance", "int"):
+                        return None
+                if isinstance(par, ast.Compare):
+                    others = [par.left] + list(par.comparators)
+                    if any(isinstance(o, ast.Constant) and o.value is None for o in others):
+                        return None
+                    if any(isinstance(x, ast.Subscript) or (isinstance(x, ast.Name) and "sub" in x.id.lower())
+                           for o in others if o is not cur for x in ast.walk(o)):
+                        return par
+                    return None
+                if isinstance(par, ast.BinOp) and isinstance(par.op, ast.Mod):
+                    return par
+                if isinstance(par, ast.stmt):
+                    return None
+                cur = par
+            return None
+        bad = None
+        for a in raw:
+            u = position_use(a)
+            if u is not None:
+                bad = bad or (a, u)
+        for nm, d in carriers.items():
+            for x in ast.walk(fn):
+                if isinstance(x, ast.Name) and x.id == nm and isinstance(x.ctx, ast.Load):
+                    u = position_use(x)
+                    if u is not None:
+                        bad = bad or (d, u)
+        n_sites += 1
+        desc = "slice keys are normalised against the extent before they select positions"
+        where = prog.loc(fi, raw[0]) if fi is not None else "fixture"
+        if bad:
+            src, use = bad
+            res.bad("SLICE", short, desc, prog.loc(fi, use) if fi is not None else "fixture",
+                    f"a raw slice field (`{ast.unparse(src)[:50]}`) reaches `{ast.unparse(use)[:60]}`: negative bounds, an explicit 0 and the step are not "
+                    "interpreted the way range(n)[s] / numpy do, so the key addresses other positions than the same key on a dense tensor")
+        else:
+            res.ok("SLICE", short, desc, where, "raw fields only size growth")
+    return n_sites
+
+
+SLICE_FIXTURE = """
+def f(region, subs, shape):
+    start = region.start or 0
+    stop = region.stop or shape
+    return (subs >= start) & (subs < stop)
+def g(key, shape):
+    if key.stop is None:
+        return shape
+    return max(shape, key.stop)
+"""
+
+
 def sorter_rule(prog: Program, res: Result, functions=None, tree=None) -> int:
     """np.searchsorted(a, v, sorter=s) answers positions in the SORTED order of a; used as positions in a itself they
     must be mapped back through s (s[np.searchsorted(...)])."""
@@ -158,7 +254,7 @@ def sorter_rule(prog: Program, res: Result, functions=None, tree=None) -> int:
 def check(prog: Program, res: Result, tier: str) -> None:
     res.explanation = __doc__.split("\n\n", 1)[1]
     res.assumptions = ["row-helper contracts; operands well-formed", "tt_ind2sub / tt_sub2ind numbering is decided by C17"]
-    res.floors = {"IX-dom": 12, "IX-kind": 3, "EO-1": 5, "DISPATCH": 4, "GROW": 4}
+    res.floors = {"IX-dom": 12, "IX-kind": 3, "EO-1": 5, "DISPATCH": 4, "GROW": 4, "SLICE": 2}
     for f in SPARSE + DENSE + UTILS:
         prog.func(f)
     I.ix_rules(prog, res, lambda fi: fi.short in SPARSE + UTILS, ("IX-dom", "IX-seq", "IX-kind", "IX-pair"))
@@ -166,6 +262,12 @@ def check(prog: Program, res: Result, tier: str) -> None:
     dispatch(prog, res)
     grow(prog, res)
     grow_sparse(prog, res)
+    slice_norm(prog, res)
+    from ..report import Result as _R2
+    probe = _R2("C04")
+    slice_norm(prog, probe, tree=ast.parse(SLICE_FIXTURE))
+    if sorted(i.verdict for i in probe.instances) != ["OK", "VIOLATION"]:
+        raise AnalysisError(f"SLICE fixtures not recognised: {[(i.verdict, i.detail[:40]) for i in probe.instances]}")
     sorter_rule(prog, res)
     # expected count on the tree is zero: keep a positive fixture so that the rule cannot pass vacuously for ever
     from ..report import Result as _R
